@@ -69,7 +69,8 @@ let () =
         let out =
           try (List.assoc f.(0) !handlers) f
           with Not_found -> "unknown-kind" | Failure m -> "driver-failure:" ^ m
-             | Stack_overflow -> "driver-stack-overflow" in
+             | Stack_overflow -> "driver-stack-overflow"
+             | Invalid_argument m -> "driver-bad-line:" ^ m in
         print_string f.(1); print_char ' '; print_string out; print_newline ()
       end
     done
